@@ -145,6 +145,6 @@ PROPS["C05"] = dict(
                  "listed positions)", "singular bases returned by solves are skipped here (C04 judges them)",
                  "the rational counterparts are decided under C11"],
     min_nontrivial=dict(quick=2000, thorough=60000),
-    stages=[dict(name="basisq", target="c05", quick=dict(cases=3000, maxsize=80), thorough=dict(cases=20000, maxsize=100)),
+    stages=[dict(name="basisq", target="c05", quick=dict(cases=10000, maxsize=80), thorough=dict(cases=20000, maxsize=100)),
             dict(name="asan", target="c05", flavour="asan", quick=dict(cases=400, maxsize=60), thorough=dict(cases=2000, maxsize=100))],
 )
